@@ -55,7 +55,8 @@ VARIANTS = ("same", "same", "wrong", "welcome_error", "crowded", "solo",
 
 def configs(tier):
     return [{"spake": "real" if i == 0 else "stub", "reentrant": i % 3 == 1, "faults": i % 4 != 1,
-             "dilate": i in (3, 6)} for i in range(8)]
+             "dilate": i in (3, 6)} for i in range(8)] + \
+        [{"spake": "stub", "faults": False, "offline_close": True}]
 
 
 class Truth:
@@ -97,9 +98,18 @@ class Truth:
 
 def run_one(seed, tape, opts):
     variant = tape.pick(VARIANTS, "variant")
+    offline_close = bool(opts.get("offline_close"))
+    if offline_close:
+        # the receiver of an interactive code entry goes offline after the
+        # nameplate was claimed, the wormhole is closed (by the application or
+        # because the user gave up) while offline, the words are still
+        # entered, the network comes back
+        variant = tape.pick(("same", "same", "wrong"), "variant_oc")
     welcome = {"error": "sim says no"} if variant == "welcome_error" else \
         {"motd": "hello"}
-    w = MailboxWorld(tape, opts, welcome=welcome)
+    # (late_words: the user of an interactive prompt may finish typing the
+    # words after close() was called)
+    w = MailboxWorld(tape, dict(opts, late_words=True), welcome=welcome)
     sim = w.sim
     apis = ("deferred", "delegate")
     # in 1/4 of the runs the wormholes are created with Dilation and the
@@ -118,6 +128,8 @@ def run_one(seed, tape, opts):
         c3 = w.add_client("C", api=tape.pick(apis, "api_c"))
         clients.append(c3)
     mode = tape.pick(("alloc_set", "set_set", "alloc_input"), "codemode")
+    if offline_close:
+        mode = "alloc_input"
     w.mode = variant + "/" + mode
     code = ca.fixed_code(tape)
     if mode == "set_set":
@@ -159,14 +171,53 @@ def run_one(seed, tape, opts):
         else:
             cut = tape.choose(len(base) + 1, "closepos")
             tail = [op for op in base[cut:] if op[0] == "send"]
+            words = [op for op in base[cut:] if op[0] == "choose_words_from"]
             base = base[:cut]
             if style == 3 and base:
                 base.append(("wait_steps", tape.choose(40, "ws2")))
             base.append(("close",))
+            if words and tape.choose(2, "late_words") == 0:
+                base.append(("wait_steps", tape.choose(30, "ws3")))
+                base += words[:1]
             base += tail[:1]
         if tape.choose(3, "again") == 0:
             base.append(("close",))
+        if offline_close and c.name == "B":
+            words = [op for op in scripts["B"]
+                     if op[0] in ("choose_words_from",
+                                  "choose_wrong_words_from")]
+            base = [op for op in scripts["B"] if op not in words]
+            base += [("wait_steps", 5 + tape.choose(80, "oc_w1")),
+                     ("offline",)]
+            tail = [("close",), ("wait_steps", tape.choose(10, "oc_w2"))] + \
+                words
+            if tape.choose(4, "oc_order") == 0:
+                tail = words + [("close",)]
+            base += tail + [("wait_steps", tape.choose(30, "oc_w3")),
+                            ("online",)]
         c.script = base
+    def go_offline(c):
+        opened = False
+        for link in sim.net.links:
+            if link.owner is c:
+                p = link.ends[0].protocol
+                p = getattr(p, "_wrappedProtocol", p)
+                opened = opened or getattr(p, "opened", False)
+        if not opened:
+            # (losing the very first connection attempt is a terminal error
+            # of its own and not what this configuration is about)
+            return
+        sim.ev("offline", c.name)
+        sim.note("fault.client_offline")
+        sim.net.port_mode[w.server.port] = "refuse"
+        for link in sim.net.links:
+            if link.mode == "message" and link.up and link.owner is c:
+                sim.net.cut(link)
+
+    def go_online(c):
+        sim.ev("online", c.name)
+        sim.net.port_mode[w.server.port] = "ok"
+    w.extra_ops = {"offline": go_offline, "online": go_online}
     if opts.get("faults", True):
         ca.pick_faults(tape, w, ca.CONN_FAULTS + (
             ("restart_unwelcome",) if tape.choose(3, "unw") == 0 else ()), 5)
